@@ -878,6 +878,32 @@ fn check_single(img: &Image, base: u64, user_model: &[Addr], obs: &mut Obs) -> R
         }
     }
 
+    // The same image through ElfLinker without relocation (every machine, not only the two the
+    // linking cases use): the memory it builds has the header's word order and the image's bytes.
+    let no_deps = img.dynamic.as_ref().map(|d| d.needed.is_empty()).unwrap_or(true);
+    if base == 0 && no_deps && engine::fingerprint(&b.bytes) % 12 == 0 {
+        let dir = engine::verif_dir().join("work").join("C19").join(format!("single-{}-{}", std::process::id(), SCRATCH_SEQ.fetch_add(1, std::sync::atomic::Ordering::Relaxed)));
+        if std::fs::create_dir_all(&dir).is_ok() {
+            let _scratch = Scratch(dir.clone());
+            let file = dir.join("image.elf");
+            if std::fs::write(&file, &b.bytes).is_ok() {
+                if let Ok(Ok(linker)) = guard(|| ElfLinkerBuilder::new(file.clone()).do_relocations(false).link()) {
+                    obs.class("single-image-through-elf-linker");
+                    let lb = linker.loaded().values().next().map(|e| e.base_address()).unwrap_or(0);
+                    if let (Ok(Ok(lm)), Some(r)) = (guard(|| linker.memory()), regions.iter().find(|r| r.data.len() >= 4 && r.data[..4].iter().collect::<BTreeSet<_>>().len() > 1)) {
+                        let w = [r.data[0], r.data[1], r.data[2], r.data[3]];
+                        let want = if want_big { u32::from_be_bytes(w) } else { u32::from_le_bytes(w) };
+                        if let Ok(Some(g)) = guard(|| lm.get32(r.start + lb)) {
+                            if g != want {
+                                fails.push(Failure::new("C19|linker|memory|endian", format!("ElfLinker (no relocation) get32(0x{:x}) = 0x{:08x}; bytes {:02x?} read {} endian are 0x{:08x}", r.start + lb, g, w, if want_big { "big" } else { "little" }, want)));
+                            }
+                        }
+                    }
+                }
+            }
+        }
+    }
+
     // function entries
     let entries_at = |e: &Elf, what: &str| -> Result<BTreeSet<u64>, Failure> {
         match guard(|| e.function_entries()) {
